@@ -1,6 +1,6 @@
 SPECIFICATION Spec
 CONSTANTS
-  Families = {"all1", "all2", "bin3", "perm3", "tri3", "ptri3"}
+  Families = {"all1", "all2", "perm3", "tri3", "ptri3", "spd3", "diag3", "trid3"}
   Pivoting = TRUE
   Mod = 1
   Res = 0
